@@ -6,4 +6,4 @@
 From P2 Require Import Base.Prelude Sem.Syntax Sem.Opt Generated.ValueCfg.
 
 Definition generated_flags : cfgflags :=
-  mkflags vcfg_ops vcfg_unary vcfg_static_pure vcfg_meth_impure true true true true true true.
+  mkflags vcfg_ops vcfg_unary vcfg_static_pure vcfg_meth_impure true true true true true true false.
